@@ -2,7 +2,7 @@
 import ast
 import z3
 from .engine import (I, R, B, A1, A2, CPLX, cmul, fresh, OutOfFragment, ContractError, MissingSnapshot, UnknownName, AV, Ref, View, IdxList,
-                     Gather, ArrCmp, ListObj, BList, Obj, Unbound, PyConst, SymSeq, State, VC, SpecEval, elem_sort, arr_sort,
+                     Gather, ArrCmp, ListObj, BList, Obj, OptV, Unbound, PyConst, SymSeq, State, VC, SpecEval, elem_sort, arr_sort,
                      is_z3, to_z3, as_bool, as_num, compare, scalar_binop, array_binop)
 
 TYPE_ARR = {'bool1': (1, 'bool'), 'int1': (1, 'int'), 'int2': (2, 'int'), 'real1': (1, 'real'), 'cplx1': (1, 'cplx'), 'cplx2': (2, 'cplx'), 'int3': (3, 'int'),
@@ -87,6 +87,7 @@ class Contract(object):
         self.defaults = dict(d.get('defaults', {}))
         self.canonical_slices = bool(d.get('canonical_slices', False))   # a[lo:hi] reads as the spec terms RowSlice / Slice1
         self.ghost = list(d.get('ghost', []))           # locals that postconditions may name (deductive only: skipped natively and at call sites)
+        self.calls = dict(d.get('calls', {}))           # call text (e.g. 'gate.forward') -> the contract variant of the callee this proof uses there
         self.decreases = d.get('decreases')             # integer expression over the parameters: strictly smaller (and >= 0) at every recursive call
         self.doc = d.get('doc', '')
 
@@ -464,21 +465,29 @@ class FuncVerifier(object):
             return st.alloc(BList([self.fresh_value(st, '%s_%d' % (name, k), t[1]) for k in range(t[2])], ln))
         if t == 'slice':             # a slice object lo:hi with integer bounds (no step)
             return Tag('slice', fresh(name + '.start', I), fresh(name + '.stop', I))
-        if isinstance(t, dict) and 'seq' in t:      # a list of objects of unknown length: {'seq': {'cls': .., 'fields': {f: 'int' | 'int1'}}}
+        if isinstance(t, dict) and 'seq' in t:      # a list of objects of unknown length: {'seq': {'cls': .., 'fields': {f: type}}}
             et = t['seq']
             ln = fresh(name + '_len', I)
             st.pc.append(ln >= 0)
-            cols = {}
-            for f, ft in et['fields'].items():
+
+            def nonneg(arr_):
+                k_ = fresh('k', I)
+                st.pc.append(z3.ForAll([k_], z3.Select(arr_, k_) >= 0, patterns=[z3.Select(arr_, k_)]))
+                return arr_
+
+            def mkcol(nm, ft):
                 if ft == 'int':
-                    cols[f] = ('int', fresh('%s.%s' % (name, f), arr_sort(1, 'int')))
-                elif ft == 'int1':
-                    lens = fresh('%s.%s_len' % (name, f), arr_sort(1, 'int'))
-                    k_ = fresh('k', I)
-                    st.pc.append(z3.ForAll([k_], z3.Select(lens, k_) >= 0, patterns=[z3.Select(lens, k_)]))
-                    cols[f] = ('int1', fresh('%s.%s' % (name, f), arr_sort(2, 'int')), lens)
-                else:
-                    raise ContractError('sequence element field type %r' % (ft,))
+                    return ('int', fresh(nm, arr_sort(1, 'int')))
+                if ft == 'int1':
+                    return ('int1', fresh(nm, arr_sort(2, 'int')), nonneg(fresh(nm + '_len', arr_sort(1, 'int'))))
+                if ft == 'int2':
+                    return ('int2', fresh(nm, arr_sort(3, 'int')), nonneg(fresh(nm + '_rows', arr_sort(1, 'int'))), nonneg(fresh(nm + '_cols', arr_sort(1, 'int'))))
+                if isinstance(ft, tuple) and len(ft) == 2 and ft[0] == 'opt':
+                    return ('opt', fresh(nm + '_present', z3.ArraySort(I, B)), mkcol(nm, ft[1]))
+                if isinstance(ft, dict) and 'cls' in ft:
+                    return ('obj', ft['cls'], {f: mkcol('%s.%s' % (nm, f), f2) for f, f2 in ft['fields'].items()})
+                raise ContractError('sequence element field type %r' % (ft,))
+            cols = {f: mkcol('%s.%s' % (name, f), ft) for f, ft in et['fields'].items()}
             return st.alloc(SymSeq(et['cls'], ln, cols))
         if isinstance(t, dict):      # object: {'cls': 'Pauli', 'fields': {'g': 'int1', 'p': 'int'}}
             fields = {f: self.fresh_value(st, '%s.%s' % (name, f), ft, param) for f, ft in t['fields'].items()}
@@ -947,26 +956,64 @@ class FuncVerifier(object):
             itv = self.pev(n.iter, st)
             if isinstance(itv, Tag) and itv.kind == 'enumerate':
                 enum_src = itv.data[0]
-        if not is_range and enum_src is None:
-            raise OutOfFragment('for loop that is not `for <name> in range(a[, b])`, `range(a, b, -1)` or `for i, x in enumerate(<1-D array>)`', n)
+        seq_src = None
+        if not is_range and enum_src is None and isinstance(n.target, ast.Name):
+            # `for x in <list of objects of unknown length>`: a hidden index runs over range(len(l)); x is element index of the list
+            itv = self.pev(n.iter, st)
+            if isinstance(itv, Ref) and isinstance(st.heap.get(itv.loc), SymSeq):
+                seq_src = st.heap[itv.loc]
+        if not is_range and enum_src is None and seq_src is None:
+            raise OutOfFragment('for loop that is not `for <name> in range(a[, b])`, `range(a, b, -1)`, `for i, x in enumerate(<1-D array>)` or over a list of objects', n)
         if k not in self.c.loops:
             raise ContractError('%s: no invariant for loop %d (line %d)' % (self.c.key, k, n.lineno))
         ls = self.c.loops[k]
-        var = n.target.id if is_range else n.target.elts[0].id
+        if seq_src is not None:
+            if ls.var is None or ls.var in st.env:
+                raise ContractError('%s: loop %d over a list of objects needs a ghost index name (`var`) that is not a program variable' % (self.c.key, k))
+            var = ls.var
+        else:
+            var = n.target.id if is_range else n.target.elts[0].id
         if ls.var is not None and ls.var != var:
             raise OutOfFragment('loop %d iterates over %r, contract expects %r' % (k, var, ls.var), n)
         if is_range:
             args = [as_num(self.pev(a, st)) for a in n.iter.args]
             lo, hi = (z3.IntVal(0), args[0]) if len(args) == 1 else (args[0], args[1])
+        elif seq_src is not None:
+            lo, hi = z3.IntVal(0), seq_src.length
         else:
             lo, hi = z3.IntVal(0), self.deref(enum_src, st).shape[0]
-        evar = None if is_range else n.target.elts[1].id
+        evar = None if (is_range or seq_src is not None) else n.target.elts[1].id
 
         def bind_elem(s_, idx):
             if evar is not None:
                 av_ = self.deref(enum_src, s_)
                 el = z3.Select(av_.term, idx)
                 s_.env[evar] = Tag('char', el) if av_.elem == 'char' else el
+
+        def materialise(s_, idx):
+            """the element of a list of objects at a symbolic index as a program object: one state per combination of absent / present
+            optional sub-objects (the presence flags of the element are fixed accordingly on each path)"""
+            if seq_src is None:
+                return [s_]
+            import itertools
+            opts = seq_src.opt_paths()
+            outs_ = []
+            for choice in itertools.product([False, True], repeat=len(opts)):
+                s2 = s_.copy() if len(opts) else s_
+                pres = {}
+                for (path_, flags_), on in zip(opts, choice):
+                    pres[path_] = on
+                    s2.pc.append(z3.Select(flags_, idx) if on else z3.Not(z3.Select(flags_, idx)))
+
+                def to_prog(v_):
+                    if isinstance(v_, AV):
+                        return s2.alloc(v_)
+                    if isinstance(v_, Obj):
+                        return s2.alloc(Obj(v_.cls, {f_: to_prog(x_) for f_, x_ in v_.fields.items()}))
+                    return v_
+                s2.env[n.target.id] = to_prog(seq_src.elem(idx, pres))
+                outs_.append(s2)
+            return outs_
         site = 'loop%d' % k
         st.snaps = dict(st.snaps)
         st.snaps[site + '.pre'] = (dict(st.env), dict(st.heap))
@@ -996,7 +1043,7 @@ class FuncVerifier(object):
         bind_elem(s_b, iv)
         s_b.snaps[site + '.head'] = (dict(s_b.env), dict(s_b.heap))
         self.apply_hints(s_b, ls.hints_head, site + '.head')
-        for (s1, ctl) in self.exec_block(n.body, s_b):
+        for (s1, ctl) in [r_ for sb_ in materialise(s_b, iv) for r_ in self.exec_block(n.body, sb_)]:
             if ctl is None or ctl == 'continue':
                 cur = s1.env.get(var)
                 if not (is_z3(cur) and z3.eq(cur, iv)):
@@ -1972,7 +2019,13 @@ class FuncVerifier(object):
             o = st.heap[recv.loc]
             mfile, mcls, mdef = self.find_method(o.cls, meth)
             callee, full = None, [recv] + args
-            if not kwargs:
+            pin = self.c.calls.get(self.call_name(n)) if not self.inline_depth else None
+            if pin is not None:
+                # the contract names the callee's variant to use here (its requires are obligations as always)
+                callee = self.lib.contracts.get('%s::%s' % (mfile, pin))
+                if callee is None or kwargs:
+                    raise ContractError('%s: pinned callee contract %s not found' % (self.c.key, pin))
+            elif not kwargs:
                 callee = self.select_variant(mfile, mcls, meth, full, st)
             else:
                 # keyword arguments: placed by parameter name of the real signature, then matched like positional ones
@@ -2032,6 +2085,18 @@ class FuncVerifier(object):
         base = '%s::%s.%s' % (mfile, mcls, meth)
         return self.match_variant(base, args, st)
 
+    def field_matches(self, ft, v, st):
+        """does the current value of an object field fit the declared field type (None-ness and object-ness only)?"""
+        if isinstance(ft, tuple) and len(ft) == 2 and ft[0] == 'opt':
+            return v is None or self.field_matches(ft[1], v, st)
+        if ft == 'none':
+            return v is None
+        if v is None:
+            return False
+        if isinstance(ft, dict) and 'cls' in ft:
+            return isinstance(v, Ref) and isinstance(st.heap.get(v.loc), Obj) and self.is_subclass(st.heap[v.loc].cls, ft['cls'])
+        return True
+
     def match_variant(self, base, args, st):
         cands = [c for k, c in self.lib.contracts.items() if k == base or k.startswith(base + '#')]
         best, best_rank = None, -1
@@ -2054,6 +2119,9 @@ class FuncVerifier(object):
                         break
                     if any(f not in st.heap[a.loc].fields for f in ty['fields']):
                         ok = False
+                        break
+                    if not all(self.field_matches(ft_, st.heap[a.loc].fields[f_], st) for f_, ft_ in ty['fields'].items()):
+                        ok = False            # e.g. a gate whose generator is None does not fit a variant that declares a generator
                         break
                     rank += len(self.class_chain(ty['cls']))          # deeper class = more specific
                 elif ty == 'none':
